@@ -129,7 +129,7 @@ def parse_tlc(out):
 def tlc(module, cfg, name, workers=8, timeout=900, simulate=None, coverage=True, env=None, extra="", heap="8g",
         deque=False):
     """Runs TLC on specs/<module>.tla with specs/<cfg>; returns (parsed, raw output)."""
-    meta = workdir("tlc_" + name)
+    meta = workdir("tlc_%s_%d" % (name, os.getpid()))
     jopts = "-Xss512m"
     if deque:
         jopts += " -Dtlc2.tool.queue.IStateQueue=StateDeque"
